@@ -233,6 +233,9 @@ def step (s : St) (line : String) : St × String :=
     else if sameNs = "1" ∧ impsup = "0" then (s, "FIX ok-modulo-support")
     else if s.memsets then (s, "FIX memsets")
     else (s, "FIX FAIL second-export-differs")
+  -- the export taken before the harness queried anything (lazily refreshed caches still stale) vs. the one taken after:
+  -- the document is a function of the topology, not of the query history
+  | ["EXP0", same] => (s, if same = "1" then "EXP0 ok" else "EXP0 FAIL export-depends-on-earlier-queries")
   | "CRASH" :: _ => (s, "bad-op")
   | _ =>
     match t with
